@@ -101,7 +101,12 @@ impl Method for Vidya {
 		self.dn_sum -= change * (change < 0.) as u8 as ValueType;
 
 		self.last_output = if self.up_sum != 0. || self.dn_sum != 0. {
-			let cmo = ((self.up_sum - self.dn_sum) / (self.up_sum + self.dn_sum)).abs();
+			// `up_sum` and `dn_sum` are running sums: after the inputs stop moving they may hold rounding residue
+			// of either sign instead of exact zeros, and the quotient of two residues can be anything.
+			// Mathematically `0 <= cmo <= 1`; keep it there, so the output never overshoots the input.
+			let cmo = ((self.up_sum - self.dn_sum) / (self.up_sum + self.dn_sum))
+				.abs()
+				.min(1.0);
 			let f_cmo = self.f * cmo;
 			input.mul_add(f_cmo, (1.0 - f_cmo) * self.last_output)
 		} else {
